@@ -42,10 +42,25 @@ def _inlinable(fn: ast.FunctionDef) -> bool:
     for n in ast.walk(fn):
         if isinstance(n, (ast.Yield, ast.YieldFrom, ast.Await, ast.Global, ast.Nonlocal)) or (n is not fn and isinstance(n, (ast.FunctionDef, ast.AsyncFunctionDef, ast.ClassDef))):
             return False
-    rets = [n for n in ast.walk(fn) if isinstance(n, ast.Return)]
-    if len(rets) > 1 or (rets and rets[0] is not body[-1]):
-        return False
     return True
+
+
+def _single_trailing_return(fn: ast.FunctionDef) -> bool:
+    body = [s for s in fn.body if not (isinstance(s, ast.Expr) and isinstance(s.value, ast.Constant))]
+    rets = [n for n in ast.walk(fn) if isinstance(n, ast.Return)]
+    return not (len(rets) > 1 or (rets and rets[0] is not body[-1]))
+
+
+def _all_paths_return(body) -> bool:
+    """every way through ``body`` ends in a return/raise (so the body can replace a `return helper(...)` statement wholesale)"""
+    if not body:
+        return False
+    last = body[-1]
+    if isinstance(last, (ast.Return, ast.Raise)):
+        return True
+    if isinstance(last, ast.If):
+        return bool(last.orelse) and _all_paths_return(last.body) and _all_paths_return(last.orelse)
+    return False
 
 
 class _Subst(ast.NodeTransformer):
@@ -59,7 +74,7 @@ class _Subst(ast.NodeTransformer):
         return n
 
 
-def _instantiate(helper: ast.FunctionDef, call: ast.Call, is_method: bool, at: ast.stmt, caller_names: set):
+def _instantiate(helper: ast.FunctionDef, call: ast.Call, is_method: bool, at: ast.stmt, caller_names: set, keep_returns: bool = False):
     params = [a.arg for a in helper.args.args]
     if is_method:
         params = params[1:]
@@ -100,7 +115,7 @@ def _instantiate(helper: ast.FunctionDef, call: ast.Call, is_method: bool, at: a
     ret = None
     for s in body:
         s2 = copy.deepcopy(s)
-        if isinstance(s2, ast.Return):
+        if isinstance(s2, ast.Return) and not keep_returns:
             ret = _Subst(mapping).visit(s2).value
             continue
         s2 = _Subst(mapping).visit(s2)
@@ -192,11 +207,29 @@ def inline_new_helpers(tree: ast.Module, relpath: str) -> int:
                     if not in_loop:
                         live = {n.id for n in ast.walk(fn) if isinstance(n, ast.Name) and isinstance(n.ctx, ast.Load) and getattr(n, "lineno", 0) >= st.lineno and not any(n is y for y in ast.walk(st))}
                         caller_names = {c for c in caller_names if c in live or c in {a.arg for a in fn.args.args + fn.args.kwonlyargs}}
-                    inst = _instantiate(helper, call, is_method, st, caller_names)
+                    tail = form == "return" and not _single_trailing_return(helper)
+                    if tail and not _all_paths_return([s_ for s_ in helper.body if not (isinstance(s_, ast.Expr) and isinstance(s_.value, ast.Constant))]):
+                        inst = None
+                    elif not tail and not _single_trailing_return(helper):
+                        inst = None
+                    else:
+                        inst = _instantiate(helper, call, is_method, st, caller_names, keep_returns=tail)
                     if inst is not None:
                         new_stmts, ret = inst
+                        if tail:
+                            # `return helper(...)` with a helper that returns on every path: its body (returns included) replaces the statement
+                            _fix_ctx(new_stmts)
+                            for s2 in new_stmts:
+                                ast.fix_missing_locations(s2)
+                            body[i:i + 1] = new_stmts
+                            i += len(new_stmts)
+                            continue
                         if form == "assign":
-                            if not (ret is not None and len(st.targets) == 1 and path_of(ret) is not None and path_of(ret) == path_of(st.targets[0])):
+                            tgt0 = st.targets[0] if len(st.targets) == 1 else None
+                            if isinstance(tgt0, ast.Tuple) and isinstance(ret, ast.Tuple) and len(tgt0.elts) == len(ret.elts) \
+                                    and all(path_of(a_) is not None and path_of(a_) == path_of(b_) for a_, b_ in zip(tgt0.elts, ret.elts)):
+                                pass  # `a, b = helper()` where the helper ends with `return a, b` over the same names: nothing left to assign
+                            elif not (ret is not None and len(st.targets) == 1 and path_of(ret) is not None and path_of(ret) == path_of(st.targets[0])):
                                 new_stmts.append(ast.copy_location(ast.Assign(targets=st.targets, value=ret if ret is not None else ast.Constant(None)), st))
                         elif form == "return":
                             new_stmts.append(ast.copy_location(ast.Return(value=ret), st))
@@ -746,7 +779,7 @@ def spelling_record(fn: ast.FunctionDef) -> dict:
             cmps.add(_txt(n))
         elif isinstance(n, ast.AugAssign):
             augs.add(_txt(n))
-        elif isinstance(n, ast.If):
+        elif isinstance(n, (ast.If, ast.IfExp)):
             ifs.add(_txt(n.test))
         elif _is_minmax2(n):
             mms.add(_txt(n))
@@ -846,6 +879,16 @@ def restore_spellings(tree: ast.Module, relpath: str) -> int:
                     if _txt(a) in ra and _txt(n) not in ra:
                         n_done += 1
                         return ast.copy_location(a, n)
+                return n
+
+            def visit_IfExp(self, n):
+                nonlocal n_done
+                self.generic_visit(n)
+                if _txt(n.test) not in ri:
+                    neg = _negated(n.test)
+                    if neg is not None and _txt(neg) in ri:
+                        n_done += 1
+                        return ast.copy_location(ast.IfExp(test=neg, body=n.orelse, orelse=n.body), n)
                 return n
 
             def visit_If(self, n):
